@@ -80,6 +80,10 @@ def mk_chain(n, coin, rng, ntx_fn=lambda h: 1, real_genesis=True, segwit=False, 
                     t = txs[-1]
                     t[rng.choice(['w_in', 'w_out'])] = rng.choice([3, 5, 9])
                     rng.choice([t['ins'][0], t['outs'][0]])['w'] = rng.choice([3, 5, 9])
+            if odd and h % 2 == 0 and len(txs) >= 2:
+                # the last transaction repeated / the whole list repeated: equal hashes as the last pair of a tree level (the shape
+                # behind CVE-2012-2459).  The merkle root of such a list is what it is; a block whose header holds it is consistent
+                txs = txs + [txs[-1]] if len(txs) % 2 == 1 else txs + txs
             # timestamps are arbitrary u32 values (also far in the future): --verify does not look at the clock
             b = datadir.mk_block(prev, txs, t=rng.choice([1300000000 + 600 * h, rng.randrange(1, 2 ** 32), 2 ** 32 - 1 - h]), nonce=h)
         blocks.append(b)
